@@ -452,12 +452,30 @@ Proof.
   apply expected_total_nonneg. assumption.
 Qed.
 
+Lemma op_fails_stmt_eq e a op : empty_pools_sane e = true -> op_fails_stmt e a op = op_fails e a op.
+Proof.
+  intros H. unfold op_fails_stmt, op_fails. unfold empty_pools_sane in H. rewrite forallb_forall in H.
+  induction (e_pools e) as [|x t IH]; [reflexivity|]. cbn [existsb].
+  rewrite IH by (intros y Hy; apply H; right; assumption). f_equal. f_equal. f_equal.
+  specialize (H x (or_introl eq_refl)).
+  destruct (Z.eqb_spec (p_total x) 0) as [E|E]; cbn [negb] in *; [|apply andb_true_r].
+  cbn [orb] in H. apply Z.leb_le in H. unfold tokens_from_shares.
+  destruct (Z.gtb_spec (p_oshare x) (p_tshare x)); [lia|].
+  destruct (p_tshare x =? 0); [rewrite E; reflexivity|reflexivity].
+Qed.
+
+Lemma avs_fails_stmt_eq e a id rows : empty_pools_sane e = true -> avs_fails_stmt_id e a id rows = avs_fails_id e a id rows.
+Proof.
+  intros H. unfold avs_fails_stmt_id, avs_fails_id. f_equal.
+  induction (rows_of id rows) as [|r t IH]; [reflexivity|]. cbn [existsb]. rewrite IH, op_fails_stmt_eq by assumption. reflexivity.
+Qed.
+
 Lemma avs_ok_of_view e c s s' a :
-  env_nonneg e = true ->
+  env_nonneg e = true -> empty_pools_sane e = true ->
   view (v_id a) s' = (if selected (fst c) (snd c) a then F e a (view (v_id a) s) else view (v_id a) s) ->
   avs_ok_id e [c] s s' a (v_id a) = true.
 Proof.
-  intros Hnn Hv. unfold avs_ok_id, sel_any. cbn [existsb]. rewrite orb_false_r.
+  intros Hnn Hes Hv. unfold avs_ok_id, sel_any. cbn [existsb]. rewrite orb_false_r. rewrite avs_fails_stmt_eq by assumption.
   unfold view in Hv. destruct (selected (fst c) (snd c) a); cbn [negb].
   - unfold F in Hv. cbn [fst] in Hv. destruct (v_assets_ok a); cbn [negb] in *.
     + unfold avs_fails_id.
@@ -515,10 +533,10 @@ Proof.
 Qed.
 
 Theorem epoch_end_meets_statement e s c :
-  nodupb Z.eqb (map v_id (e_avss e)) = true -> env_nonneg e = true -> alias_free e s = true ->
+  nodupb Z.eqb (map v_id (e_avss e)) = true -> env_nonneg e = true -> empty_pools_sane e = true -> alias_free e s = true ->
   step_ok e [c] s (epoch_end e s c) = true.
 Proof.
-  intros Hnd Hnn Hna. apply nodupb_NoDup in Hnd. unfold step_ok. rewrite epoch_end_fold.
+  intros Hnd Hnn Hes Hna. apply nodupb_NoDup in Hnd. unfold step_ok. rewrite epoch_end_fold.
   destruct (fold_view e c (e_avss e) Hnd s) as [V1 _].
   repeat (apply andb_true_intro; split).
   - apply forallb_forall. intros a Ha. unfold avs_ok.
@@ -634,11 +652,11 @@ Proof.
 Qed.
 
 Lemma avs_ok_of_view_gen e calls s s' a :
-  env_nonneg e = true ->
+  env_nonneg e = true -> empty_pools_sane e = true ->
   view (v_id a) s' = (if sel_any calls a then F e a (view (v_id a) s) else view (v_id a) s) ->
   avs_ok_id e calls s s' a (v_id a) = true.
 Proof.
-  intros Hnn Hv. unfold avs_ok_id.
+  intros Hnn Hes Hv. unfold avs_ok_id. rewrite avs_fails_stmt_eq by assumption.
   unfold view in Hv. destruct (sel_any calls a); cbn [negb].
   - unfold F in Hv. cbn [fst] in Hv. destruct (v_assets_ok a); cbn [negb] in *.
     + unfold avs_fails_id.
@@ -656,10 +674,10 @@ Qed.
 
 (* one block in which any number of epochs end (the shape the monitor evaluates on the implementation) *)
 Theorem step_meets_statement e s calls :
-  nodupb Z.eqb (map v_id (e_avss e)) = true -> env_nonneg e = true -> alias_free e s = true ->
+  nodupb Z.eqb (map v_id (e_avss e)) = true -> env_nonneg e = true -> empty_pools_sane e = true -> alias_free e s = true ->
   step_ok e calls s (step e s calls) = true.
 Proof.
-  intros Hnd Hnn Hna. apply nodupb_NoDup in Hnd. unfold step_ok.
+  intros Hnd Hnn Hes Hna. apply nodupb_NoDup in Hnd. unfold step_ok.
   repeat (apply andb_true_intro; split).
   - apply forallb_forall. intros a Ha. unfold avs_ok.
     rewrite avs_ok_of_view_gen by (try assumption; apply step_view; assumption).
@@ -746,14 +764,14 @@ Fixpoint all_blocks_ok (reg : list avs) (s : st) (h : list (list pool * list ain
 
 Definition hist_wf (reg : list avs) (h : list (list pool * list ainfo * hop)) : bool :=
   nodupb Z.eqb (map v_id reg) && aliases_disjoint (mkEnv [] [] reg) &&
-  forallb (fun x => let '(ps, ai, _) := x in env_nonneg (mkEnv ps ai reg)) h.
+  forallb (fun x => let '(ps, ai, _) := x in env_nonneg (mkEnv ps ai reg) && empty_pools_sane (mkEnv ps ai reg)) h.
 
 Lemma history_meets_statement reg h : forall s, hist_wf reg h = true -> alias_free (mkEnv [] [] reg) s = true ->
   all_blocks_ok reg s h = true.
 Proof.
   induction h as [|[[ps ai] o] t IH]; intros s H Haf; [reflexivity|].
   unfold hist_wf in H. apply andb_prop in H. destruct H as [H Hall]. apply andb_prop in H. destruct H as [Hnd Hd].
-  cbn [forallb] in Hall. apply andb_prop in Hall. destruct Hall as [Hnn Ht].
+  cbn [forallb] in Hall. apply andb_prop in Hall. destruct Hall as [Hnn Ht]. apply andb_prop in Hnn. destruct Hnn as [Hnn Hes].
   assert (Hwt : hist_wf reg t = true) by (unfold hist_wf; rewrite Hnd, Hd, Ht; reflexivity).
   cbn [all_blocks_ok]. apply andb_true_intro. split.
   - destruct o; [|reflexivity|reflexivity]. apply epoch_end_meets_statement; assumption.
